@@ -7,7 +7,7 @@ import subprocess
 from .. import catalog as K
 from .. import core
 from .. import xp
-from ..core import Case, guard
+from ..core import shash, Case, guard
 
 
 def shim():
@@ -59,9 +59,9 @@ def corpus(tier):
             for sub in itertools.combinations(keys, min(r, len(keys))):
                 if len({g for g, _ in sub}) < len(sub):
                     continue
-                if tier == 'quick' and r == 3 and hash(sub) % 4:
+                if tier == 'quick' and r == 3 and shash(sub) % 4:
                     continue
-                if r == 5 and hash(sub) % (9 if tier == 'quick' else 2):
+                if r == 5 and shash(sub) % (9 if tier == 'quick' else 2):
                     continue
                 cfg = K.merge([per[k][len(sub) % len(per[k])] for k in sub])
                 out.append(K.render(sh, cfg, 'each' if r % 2 else 'one'))
@@ -115,7 +115,14 @@ def check(v, tier):
     for pos, (i, r) in enumerate(zip(seq, a[2])):
         ref.setdefault(i, fingerprint(r))
     from .. import realmacro
-    realmacro.conformance(v, binary, inputs, [a[2][seq.index(i)] for i in range(n)])
+    # the same inputs through the real macro inside rustc (another process, the compiler's own token backend, its own hash seed):
+    # for this property a difference is not a harness problem but a violation — the expansion depends on something besides the input
+    first = [a[2][seq.index(i)] for i in range(n)]
+    nreal, mism = realmacro.bind(binary, inputs, first)
+    v.notes['real_backend_conformance'] = {'inputs_expanded_inside_rustc': nreal, 'mismatches': len(mism)}
+    for (i, r1, r2) in mism:
+        if i not in bad:
+            bad[i] = ('rustc process', -1, (r1, r2))
     if tier != 'quick':
         # the real macro inside rustc with the shim preloaded into the compiler: every seed must give the same expansion strings
         base = None
@@ -154,7 +161,7 @@ def check(v, tier):
     guard(len(orders[1]) >= (22 if tier == 'quick' else 24), 'the seeds explored produced only %d of 24 orders of a 4-key map' % len(orders[1]))
     for i, (seed, pos, fp) in sorted(bad.items()):
         case = Case('C16|%d|%s' % (i, inputs[i][:80].replace('\n', ' ')), inputs[i], {'input': inputs[i], 'seed': seed, 'history_position': pos}, run=False, depth=1)
-        v.violation(case, 'expansion differs from the reference (seed 0, first in the process) under schedule (seed=%d, position %d in the history):\n reference: %s\n observed:  %s'
+        v.violation(case, 'expansion differs from the reference (seed 0, first in the process) under schedule (seed=%s, position %s in the history):\n reference: %s\n observed:  %s'
                     % (seed, pos, str(ref[i])[:400], str(fp)[:400]))
     for t in inputs[::max(1, n // 5)][:5]:
         v.sample({'input': t})
